@@ -3,6 +3,8 @@
  *        F f <bits8hex>  <buflen> <hex of snprintf("%g")>         SCPI_FloatToStr
  *        F e <bits16hex> <buflen> <prec> <flags>                  SCPI_dtostre (the library's own formatter)
  *        F n <special> <tag> <bits16hex> <unit> <buflen> <hex of snprintf("%.15lg")>   SCPI_NumberToStr
+ *        F R <bits16hex> <hex of snprintf("%.15lg")>              SCPI_ResultDouble through a context (the library's own scratch buffer)
+ *        F r <bits8hex>  <hex of snprintf("%g")>                  SCPI_ResultFloat  through a context
  * The buffer is an exact-size heap block filled with 0xAA.  Observation:
  *        <ret> <hex of buf up to the first NUL or buflen> <nul: 1 if a NUL was found inside the buffer> <canary: 1 if every byte after the NUL is still 0xAA or was zero-filled by strncpy> */
 #include "h_env.h"
@@ -28,6 +30,14 @@ void run_buffmt(const char *input) {
         if (kind == 'd') { double d; uint64_t b = bits; memcpy(&d, &b, 8); ret = SCPI_DoubleToStr(d, buflen ? buf : buf + 1, buflen); }
         else { float f; uint32_t b = (uint32_t) bits; memcpy(&f, &b, 4); ret = SCPI_FloatToStr(f, buflen ? buf : buf + 1, buflen); }
         report(input, ret, buf, buflen, 1); free(buf);
+    } else if (kind == 'R' || kind == 'r') {
+        unsigned long long bits; h_env_t e; size_t ret;
+        if (sscanf(rest, "%llx", &bits) != 1) return;
+        h_env_init(&e, no_cmds, 16, 2, 16);
+        if (kind == 'R') { double d; uint64_t b = bits; memcpy(&d, &b, 8); ret = SCPI_ResultDouble(&e.ctx, d); }
+        else { float f; uint32_t b = (uint32_t) bits; memcpy(&f, &b, 4); ret = SCPI_ResultFloat(&e.ctx, f); }
+        printf("%s => %zu ", input, ret); h_hex(stdout, e.out, e.out_len); printf(" 1 1\n");
+        h_env_free(&e);
     } else if (kind == 'e') {
         unsigned long long bits; unsigned prec, flags; double d; uint64_t b; char *r;
         if (sscanf(rest, "%llx %u %u %u", &bits, &buflen, &prec, &flags) != 4) return;
@@ -87,9 +97,16 @@ static double interesting_double(void) {
 void dom_buffmt(void) {
     unsigned long n = h_thorough ? 1500000 : 120000; char in[512], txt[128], hx[300];
     for (; n; n--) {
-        unsigned kind = h_below(10); double d = interesting_double(); uint64_t b; unsigned buflen;
+        unsigned kind = h_below(11); double d = interesting_double(); uint64_t b; unsigned buflen;
         memcpy(&b, &d, 8);
-        if (kind < 3) {
+        if (kind == 10) {
+            /* the same values as results: the text goes through the library's own scratch buffer */
+            if (h_chance(60)) { if (h_chance(50)) d = -d; if (h_chance(40)) d *= h_chance(50) ? 1e150 : 1e-150; memcpy(&b, &d, 8);
+                snprintf(txt, sizeof txt, "%.15lg", d); hexstr(hx, txt); snprintf(in, sizeof in, "F R %016llx %s", (unsigned long long) b, hx); }
+            else { float f = (float) d; uint32_t fb; if (h_chance(50)) f = -f; memcpy(&fb, &f, 4);
+                snprintf(txt, sizeof txt, "%g", f); hexstr(hx, txt); snprintf(in, sizeof in, "F r %08x %s", fb, hx); }
+            emit_case(in);
+        } else if (kind < 3) {
             snprintf(txt, sizeof txt, "%.15lg", d); hexstr(hx, txt);
             buflen = h_chance(60) ? 32 : h_below(41);
             if (h_chance(30)) { size_t tl = strlen(txt); buflen = (unsigned)(tl + h_below(4)) - (h_chance(50) && tl ? 1 : 0); }
